@@ -66,7 +66,9 @@ void harness(void)
 					     "C07.split.in_place");
 		}
 		VERIF_COVER(out->count == (LEN + 1) / 2);
+#if LEN >= 2
 		VERIF_COVER(out->count == 1 && out->args[0][0] == '\0');
+#endif
 		VERIF_COVER(out->count == 0);
 		free(out);
 	} else {
